@@ -95,7 +95,17 @@ class ExprMixin:
         return self.lookup_name(node.id, env)
 
     def e_Tuple(self, node, env):
-        return PyTuple(self.eval_seq(node.elts, env))
+        try:
+            return PyTuple(self.eval_seq(node.elts, env))
+        except StarOnly as so:
+            return so.v
+        except StarThen as st:
+            base, extra = st.v, st.extra
+            n = base.n
+
+            def elem(i, base=base, extra=extra, n=n):
+                return self.merge_values([(i < n, base.elem(i))] + [(i == n + k, x) for k, x in enumerate(extra)])
+            return SeqV(n + len(extra), elem, "tuple")
 
     def e_List(self, node, env):
         try:
@@ -221,6 +231,13 @@ class ExprMixin:
             if isinstance(a, str) and isinstance(b, str):
                 return a + "." + b
             return Sym("key", T.dot(self.as_key(a), self.as_key(b)))
+        # the text itself is dropped (DESIGN section 2), but the embedded expressions are still evaluated: they can raise
+        for part in vals:
+            if isinstance(part, ast.FormattedValue):
+                try:
+                    self.eval(part.value, env)
+                except Unsupported:
+                    pass
         t = z3.Const(f"fstr!{env.module.name}:{node.lineno}:{node.col_offset}", T.Val)
         self.define(T.isstr(t))
         return Sym("val", t)
@@ -582,7 +599,13 @@ class ExprMixin:
             if name == "key":
                 return Sym("key", T.exc_key(v.term))
             if name == "args":
-                return PyTuple([Sym("key", T.exc_key(v.term))])
+                # KeyError raised by a dependency lookup carries exactly the key; any other exception may carry any number of arguments (also none)
+                if getattr(v, "keyerror", False) or (v.bound is None and not v.user):
+                    return SeqV(z3.IntVal(1), lambda i: Sym("key", T.exc_key(v.term)), "tuple")
+                n = z3.Function("exc_nargs", T.Exc, T.I)(v.term)
+                self.define(n >= 0)
+                argf = z3.Function("exc_arg", T.Exc, T.I, T.Val)
+                return SeqV(n, lambda i: Sym("val", argf(v.term, i)), "tuple")
             raise Unsupported(f"attribute {name} of symbolic exception")
         if isinstance(v, ClassRef):
             if v.ci is not None:
